@@ -35,6 +35,7 @@ class Run:
             self.obs = None
         d = sc.get("dispose") or {}
         self.rec = vt.Recorder(w, "r", follow=follow, dispose_at=d.get("note"), raise_at=sc.get("sub_raise"))
+        self.rec.raise_on_terminal = bool(sc.get("raise_on_terminal"))
         self.rec.dispose_children = sc.get("dispose_children", True)
         self.rec.drop_children_on_terminal = sc.get("drop_children_on_terminal", False)
         self.sub_error = None
@@ -59,7 +60,11 @@ class Run:
                     self.dispose()
 
             w.after_call = hook
-        w.run(sc["horizon"])
+        if sc.get("raise_on_terminal"):
+            with vt.counting_subscribes():
+                w.run(sc["horizon"])
+        else:
+            w.run(sc["horizon"])
 
     def dispose(self):
         self.rec.dispose()
